@@ -74,6 +74,7 @@ func c15Setup(c *Ctx) {
 		},
 		PoolPut: func(b *bytes.Buffer) bool {
 			// poison the whole capacity: contents of a released buffer must never matter
+			b.Reset()
 			raw := b.Bytes()
 			raw = raw[:cap(raw)]
 			for i := range raw {
